@@ -22,6 +22,10 @@ import (
 	"github.com/named-data/ndnd/std/utils"
 )
 
+// minFaceMTU is the smallest MTU management accepts for a face: below it the link service
+// cannot fit its own headers, let alone a fragment of a packet.
+const minFaceMTU = 64
+
 // FaceModule is the module that handles Face Management.
 type FaceModule struct {
 	manager                *Thread
@@ -89,6 +93,13 @@ func (f *FaceModule) create(interest *spec.Interest, pitToken []byte, inFace uin
 	if params.Uri == nil {
 		core.LogWarn(f, "Missing URI in ControlParameters for ", interest.Name())
 		response = makeControlResponse(400, "ControlParameters is incorrect", nil)
+		f.manager.sendResponse(response, interest, pitToken, inFace)
+		return
+	}
+
+	if params.Mtu != nil && *params.Mtu < minFaceMTU {
+		core.LogWarn(f, "MTU=", *params.Mtu, " in ControlParameters for ", interest.Name(), " is too small to carry a packet")
+		response = makeControlResponse(409, "ControlParameters are incorrect", nil)
 		f.manager.sendResponse(response, interest, pitToken, inFace)
 		return
 	}
@@ -385,6 +396,12 @@ func (f *FaceModule) update(interest *spec.Interest, pitToken []byte, inFace uin
 			responseParams["FacePersistency"] = uint64(*params.FacePersistency)
 			areParamsValid = false
 		}
+	}
+
+	if params.Mtu != nil && *params.Mtu < minFaceMTU {
+		core.LogWarn(f, "MTU=", *params.Mtu, " is too small to carry a packet")
+		responseParams["Mtu"] = uint64(*params.Mtu)
+		areParamsValid = false
 	}
 
 	if (params.Flags != nil && params.Mask == nil) || (params.Flags == nil && params.Mask != nil) {
